@@ -31,10 +31,10 @@ def parse_tree(s):
 
 def spec_paths(t, prefix=()):
     """The property's own definition: the specifier of a part is the 1-based child indices from the root."""
-    out = {t[0]: prefix}
+    out = [(t[0], prefix)]          # labels need not be unique: identical siblings are different parts
     if t[1] is not None:
         for i, c in enumerate(t[1]):
-            out.update(spec_paths(c, prefix + (i + 1,)))
+            out.extend(spec_paths(c, prefix + (i + 1,)))
     return out
 
 
@@ -42,7 +42,7 @@ def oracle(case, impl):
     tree_s, _, labels_s = case.partition("|")
     labels = [int(x) for x in labels_s.split(",") if x]
     paths = spec_paths(parse_tree(tree_s))
-    want = {paths[l] for l in labels if l in paths}
+    want = {p for (l, p) in paths if l in labels}
     if impl == "PANIC":
         return "search panicked"
     if impl == "NONE":
